@@ -29,6 +29,9 @@ func (p *Profile) FilterSamplesByName(focus, ignore, hide, show *regexp.Regexp) 
 	focusOrIgnore := make(map[uint64]bool)
 	hidden := make(map[uint64]bool)
 	for _, l := range p.Location {
+		// A location without line information stands for a single frame
+		// that can only match through its mapping.
+		unsymbolized := len(l.Line) == 0
 		if ignore != nil && l.matchesName(ignore) {
 			im = true
 			focusOrIgnore[l.ID] = false
@@ -46,7 +49,7 @@ func (p *Profile) FilterSamplesByName(focus, ignore, hide, show *regexp.Regexp) 
 		}
 		if show != nil {
 			l.Line = l.matchedLines(show)
-			if len(l.Line) == 0 {
+			if len(l.Line) == 0 && !(unsymbolized && l.matchesName(show)) {
 				hidden[l.ID] = true
 			} else {
 				hnm = true
